@@ -3,9 +3,11 @@ package props
 import (
 	"bytes"
 	"fmt"
+	"io"
 	"os"
 	"path/filepath"
 	"reflect"
+	"testing/iotest"
 	"time"
 
 	astisub "github.com/asticode/go-astisub"
@@ -147,6 +149,20 @@ func addForeignAttributes(format string, s *astisub.Subtitles) {
 			}
 		}
 	}
+}
+
+// deliver returns a reader over doc whose way of handing out the bytes is a function of the document (so that a case
+// replays the same way): everything at once, one byte at a time, half of what is asked, the last bytes with io.EOF.
+func deliver(doc []byte) io.Reader {
+	switch (len(doc) + int(strHash(string(doc))%7)) % 4 {
+	case 1:
+		return iotest.OneByteReader(bytes.NewReader(doc))
+	case 2:
+		return iotest.HalfReader(bytes.NewReader(doc))
+	case 3:
+		return iotest.DataErrReader(bytes.NewReader(doc))
+	}
+	return bytes.NewReader(doc)
 }
 
 // scribble edits everything a caller may edit in a list it got from a reader.
